@@ -153,6 +153,9 @@ static void handler(const Line& t, Out& o) {
     regs[(long)t.at(2)] = std::move(p);
     o.R(1); break; }
   case 9: { get(t.at(1)).reset(); o.R(1); break; }
+  case 11: { // coupon of a raw hash state: 11 h1 h2
+    HashState hs; hs.h1 = (uint64_t)t.at(1); hs.h2 = (uint64_t)t.at(2);
+    o.R((I)HllUtil<A>::coupon(hs)); break; }
   default: o.R(-2);
   }
 }
